@@ -133,8 +133,14 @@ func runC01(r *Run, rng *Rng, tier string) error {
 				dirs = append(dirs, d)
 			}
 		}
+		if g.Chance(25) {
+			dirs = append(dirs, "configurations")
+		}
 		t := genTree(g, treeOpts{MaxLayers: 3, Directives: dirs, ResPerLayer: 4})
 		fam := "valid"
+		if hasDir(treeOpts{Directives: dirs}, "configurations") {
+			fam = "valid+configurations"
+		}
 		if g.Chance(20) {
 			twoFaults(g, t)
 			fam = "two-faults"
